@@ -181,6 +181,8 @@ pub struct Machine {
     utf8: bool,
     pub dead: bool,
     pub out: Vec<String>,
+    collect: bool,
+    collected: Vec<Ev>,
 }
 
 fn lock(t: &Arc<Mutex<Tap>>) -> std::sync::MutexGuard<'_, Tap> {
@@ -204,6 +206,8 @@ impl Machine {
             utf8: h.utf8,
             dead: false,
             out: Vec::new(),
+            collect: false,
+            collected: Vec::new(),
         };
         m.out.push(format!(
             "{{\"k\":\"new\",\"id\":{},\"sid\":{},\"C\":{},\"L\":{},\"scr\":{},\"utf8\":{},\"post\":{}}}",
@@ -218,7 +222,11 @@ impl Machine {
         let mut t = lock(&self.tap);
         let lines = std::mem::take(&mut t.lines);
         self.out.extend(lines);
-        std::mem::take(&mut t.events)
+        let evs = std::mem::take(&mut t.events);
+        if self.collect {
+            self.collected.extend(evs.iter().cloned());
+        }
+        evs
     }
 
     fn ensure_parser(&mut self) {
@@ -423,15 +431,28 @@ pub fn run_history(h: &History) -> Vec<String> {
         // setup history: executed through the API without per-step logging, then one
         // `sync` line with the events (and their width facts) and the full state reached
         lock(&m.tap).log_ops = false;
+        m.collect = true;
         for e in &h.setup {
-            m.api(&e.ev);
+            m.step(e);
             if h.dispsetup {
                 lock(&m.tap).display();
             }
         }
         let mut t = lock(&m.tap);
         t.log_ops = true;
-        let evs: Vec<String> = std::mem::take(&mut t.events).iter().filter(|e| e.op != "display").map(|e| e.json()).collect();
+        // (display() leaves the state alone and is not part of the specification's fold; embedder actions
+        // such as resize are not listener calls and are taken from the history itself)
+        m.collected.extend(std::mem::take(&mut t.events));
+        m.collect = false;
+        let mut recorded = std::mem::take(&mut m.collected).into_iter().filter(|e| e.op != "display");
+        let mut evs: Vec<String> = Vec::new();
+        for e in &h.setup {
+            match e.ev.op.as_str() {
+                "display" => {}
+                "resize" | "cleardirty" => evs.push(e.ev.json()),
+                _ => { if let Some(r) = recorded.next() { evs.push(r.json()); } }
+            }
+        }
         t.proj.reset();
         let post = t.project();
         let panics = t.panics;
